@@ -107,7 +107,7 @@ func c07Normalize(d *vfkit.Decoded) string {
 }
 
 func TestVfC07Cache(t *testing.T) {
-	st := vfkit.Stats("TestVfC07Cache", "histories of 8-24 queries around one base question that differ from it in exactly one of {letter case, name, class, type, client group (other range, same range, same label in another range, no range, unknown address)}, sequential and in concurrent bursts, against proxies with an ample and a tiny memory cache; upstream answers carry a serial unique per upstream query (TTL 300) and random flags/sections; oracles: all queries answered with one serial agree on (lower-cased name, class, type, group), responses with one serial are equal apart from ID/TTL, and (ample cache) a repeat of an already answered key causes no upstream query; non-trivial = history contains a pair differing in exactly one component after the first was cached")
+	st := vfkit.Stats("TestVfC07Cache", "histories of 8-24 queries around one base question that differ from it in exactly one of {letter case, name, class, type, client group (other range, same range, same label in another range, no range, unknown address)}, sequential and in concurrent bursts, against proxies with an ample and a tiny memory cache; upstream answers carry a serial unique per upstream query (TTL 300), random flags/sections and, for one name in three, 28 glue records (about 3 KiB uncompressed); oracles: all queries answered with one serial agree on (lower-cased name, class, type, group), responses with one serial are equal apart from ID/TTL, and (ample cache) a repeat of an already answered key causes no upstream query; non-trivial = history contains a pair differing in exactly one component after the first was cached")
 	defer vfkit.Flush()
 	block := NextIPBlock()
 	up, err := StartUpstream("udp", "up", block+"2", 0, nil, func(q *UpQuery) UpAction {
@@ -134,6 +134,14 @@ func TestVfC07Cache(t *testing.T) {
 			{Owner: n[1:], Type: 2, Class: q.Msg.Q[0].Class, TTL: 301, RData: []vfkit.RDPart{{IsName: true, Name: vfkit.Name{[]byte("ns1"), []byte("vf")}}}},
 		}
 		m.Ar = []vfkit.RR{{Owner: vfkit.Name{[]byte("ns1"), []byte("vf")}, Type: 1, Class: 1, TTL: 302, RData: []vfkit.RDPart{{Raw: h}}}}
+		if h[2]%3 == 0 && n.WireLen() < 150 {
+			// a bulky answer for one name in three: small on the wire thanks to compression (about 700 octets), some 3 KiB
+			// without - whatever the cache stores must give back all of it
+			long := append(vfkit.Name{[]byte("a-rather-long-label-of-glue"), []byte("and-another-one-just-as-long")}, n...)
+			for i := 0; i < 28; i++ {
+				m.Ar = append(m.Ar, vfkit.RR{Owner: long, Type: 1, Class: 1, TTL: 300, RData: []vfkit.RDPart{{Raw: []byte{10, h[3], byte(i), 1}}}})
+			}
+		}
 		return UpAction{Reply: EncodeMsg(m)}
 	})
 	if err != nil {
@@ -280,8 +288,24 @@ func TestVfC07Cache(t *testing.T) {
 					t.Fatalf("answer belongs to another question (name/class/type); %s", desc)
 				}
 				norm := c07Normalize(r)
+				// A UDP client may get a truncated view of a bulky answer (that is C09's business, and specific to its
+				// transport): such a response takes part in the key oracle only. On the stream-like transports of this
+				// test nothing of 3 KiB is ever truncated.
+				truncatedView := r.Has(vfkit.BitTC)
+				if truncatedView && a.client.via != "udp" {
+					t.Fatalf("a response over %s carries TC=1 (the upstream's answer is far below 64 KiB): %s; %s", a.client.via, r.Msg.String(), desc)
+				}
 				mu.Lock()
-				if s, dup := bySerial[serial]; dup {
+				if s, dup := bySerial[serial]; truncatedView {
+					if dup && s.key != key {
+						t.Fatalf("upstream answer #%d, fetched for type %d class %d group %q, was served to a query of type %d class %d group %q; %s", serial, s.key.typ, s.key.class, s.key.group, key.typ, key.class, key.group, desc)
+					}
+				} else if dup && s.norm == "" {
+					if s.key != key {
+						t.Fatalf("upstream answer #%d, fetched for type %d class %d group %q, was served to a query of type %d class %d group %q; %s", serial, s.key.typ, s.key.class, s.key.group, key.typ, key.class, key.group, desc)
+					}
+					bySerial[serial] = seen{key, norm}
+				} else if dup {
 					if s.key != key {
 						t.Fatalf("upstream answer #%d, fetched for %s type %d class %d group %q, was served to a query of type %d class %d group %q; %s", serial, vfkit.Name(nil), s.key.typ, s.key.class, s.key.group, key.typ, key.class, key.group, desc)
 					}
@@ -293,6 +317,11 @@ func TestVfC07Cache(t *testing.T) {
 					}
 				} else {
 					bySerial[serial] = seen{key, norm}
+				}
+				if truncatedView {
+					if _, dup := bySerial[serial]; !dup {
+						bySerial[serial] = seen{key, ""} // key known, full form not yet seen
+					}
 				}
 				mu.Unlock()
 			}
